@@ -462,9 +462,13 @@ def swaption_pair(case, K=None, spec=None, curve=None):
     res = {}
     for lt in (E.SwapTypes.PAY, E.SwapTypes.RECEIVE):
         sw = E.IborSwaption(settle, ex, mat, lt, K, ff, fdc, **swaption_kw(case))
+        mdl = make_model(spec)
+        idx = tree_swaption_overrun(sw, vd, mdl)
+        if idx is not None:
+            raise TreeIndexOverrun(f'index {idx} of arrays with {int(mdl.num_time_steps) + 2} entries')
         with warnings.catch_warnings():
             warnings.simplefilter('ignore')
-            res[lt.name] = (float(sw.value(vd, curve, make_model(spec))), sw)
+            res[lt.name] = (float(sw.value(vd, curve, mdl)), sw)
     return res, curve, (vd, settle, ex, mat, ff, fdc)
 
 
@@ -778,6 +782,29 @@ def oracle_bondoption(case, curve=None):
     return out
 
 
+
+class TreeIndexOverrun(Exception):
+    """predicted out-of-bounds write of the compiled BK/BDT swaption routine (not executed)"""
+
+
+def tree_swaption_overrun(o, vd, model):
+    """`IborSwaption.value` with a BK/BDT tree builds the tree to (maturity − SETTLEMENT)/365 but maps the coupon
+    times, measured from the VALUATION date, to tree steps (finding C08/tree-swaption-expiry-from-settlement).  The
+    routine then indexes arrays of num_time_steps + 2 entries at int(t_cpn/dt + 0.5): when the valuation date precedes
+    settlement by more than about 1.5 tree steps that index is past the end — the interpreter raises IndexError, the
+    compiled code writes outside the array and corrupts the heap of the process (observed: `free(): invalid next size`,
+    abort).  The harness therefore predicts the index and does not execute such a call."""
+    if not isinstance(model, (E.BKTree, E.BDTTree)):
+        return None
+    n = int(model.num_time_steps)
+    t_mat = (o.maturity_dt - o.settle_dt) / 365.0
+    if t_mat <= 0:
+        return None
+    dt = t_mat / n
+    t_last = (o.maturity_dt - vd) / 365.0          # the last fixed payment is on or after the maturity date
+    idx = int(t_last / dt + 0.5)
+    return idx if idx >= n + 2 else None
+
 # ------------------------------------------------------------------------------------------ bermudan
 def oracle_bermudan(case, curve=None):
     out = Fails()
@@ -872,6 +899,11 @@ def _reuse_build(case):
         raise ValueError(kind)
 
     def value(objs, vd, curve, model):
+        if kind == 'swaption':
+            for o in objs:
+                idx = tree_swaption_overrun(o, vd, model)
+                if idx is not None:
+                    raise TreeIndexOverrun(f'index {idx} of arrays with {int(model.num_time_steps) + 2} entries')
         with warnings.catch_warnings():
             warnings.simplefilter('ignore')
             return [float(o.value(vd, curve, model)) for o in objs]
@@ -1089,8 +1121,18 @@ def compare_modelfn(ctx, ops, keep):
             continue
         vals = [b2f(x) for x in t]
         rt = 1e-7 if mk == 'bachelier' else 1e-9
+        if mk == 'hw':
+            # option_on_zcb evaluates (1 - exp(-a*tau))/a and (1 - exp(-2*a*t))/(2a) directly; for tiny mean reversion (the code
+            # clamps a at 1e-10) that is a cancellation with relative rounding error ~ eps/(a*tau): two correctly rounded
+            # evaluations (numpy / Lean Float) then differ by up to that much in sigma_p, hence in the price (vega-bounded by
+            # the price scale).  The tolerance follows that condition number; it is 1e-9 again for a*tau >= 1e-6.
+            a_eff = max(abs(case['a']), 1e-10)
+            tau = max(min(case['texp'], case['tmat'] - case['texp']), 1e-6)
+            rt = max(rt, 8 * 2.3e-16 / (a_eff * tau))
         scale = abs(case.get('face', 1.0)) if mk == 'hw' else case['df'] * (case['f'] + case['k'])
         at = (1e-8 if mk == 'bachelier' else 1e-10) * scale
+        if mk == 'hw' and rt > 1e-9:
+            at = max(at, rt * scale)
         gen = vals[:len(iv)]
         for i, (x, y) in enumerate(zip(iv, gen)):
             ncmp += 1
@@ -1358,6 +1400,12 @@ def run(ctx):
         """product valuations on tame inputs must not raise"""
         try:
             return fn()
+        except TreeIndexOverrun as e:
+            # consequence of the known finding (times from settlement vs coupon times from valuation): memory-unsafe, not run
+            ctx.violation(f'{comp}: IborSwaption.value on a BK/BDT tree would index past the end of the tree arrays ({e}): '
+                          'IndexError in the interpreter, heap corruption in the compiled routine',
+                          dict(case, component=comp), finding=F_SWSET, clause='memory-safety')
+            return None
         except Exception as e:  # noqa: BLE001
             import traceback
             if isinstance(e, E.FinError) and case['model']['kind'] in ('bk', 'bdt') and (
@@ -1511,6 +1559,8 @@ def run(ctx):
             case = gen_reuse(rng, product, mkind)
             if case is None:
                 continue
+            if os.environ.get('C08_TRACE'):
+                open(os.environ['C08_TRACE'], 'a').write(json.dumps(case, default=str) + '\n')
             fails = guarded('reuse', case, lambda: oracle_reuse(case))
             if fails is None:
                 continue
